@@ -126,6 +126,8 @@ def domain(typ, nullable, tag, n, positional=False, with_null=False, extra=()):
         d = [("yes", True), ("off", False), ("1", True), ("0", False), ("true", True), ("false", False), ("on", True), ("no", False)]
         if tag % 2:
             d = [d[i ^ 1] for i in range(len(d))]
+        if with_null == "full":  # single-valued options of part A: every accepted spelling of a boolean
+            n = len(d)
         nul = ("null", None) if nullable else None
     else:
         raise ValueError(typ)
@@ -160,7 +162,7 @@ def option_choices(spec, k, dom_n, multi_len, bare_none=False, with_null=False):
         return [None, ["flag"]]
     if mode == "multi":
         return [None] + [["val", t] for t in _tuples(lambda j: domain(typ, nullable, 10 * k + j, dom_n, False, with_null), 1, multi_len)]
-    ch = [None] + [["val", [v]] for v in domain(typ, nullable, 10 * k, dom_n, False, with_null)]
+    ch = [None] + [["val", [v]] for v in domain(typ, nullable, 10 * k, dom_n, False, "full" if with_null else False)]
     if mode == "opt" and (default is not None or bare_none):
         ch.append(["bare"])
     return ch
